@@ -818,6 +818,17 @@ void harness_init(Params const& p)
 
   quill::BackendOptions bo;
   bo.sleep_duration = std::chrono::nanoseconds{500};
+  {
+    // parameter hard_limit=<n>: a small (legal) BackendOptions::transit_events_hard_limit / soft limit. How much the backend
+    // reads per pass must not change what the logging thread can reuse: a drained queue is a drained queue
+    long const hl = param_int(p, "hard_limit", 0);
+    if (hl > 0)
+    {
+      bo.transit_events_hard_limit = static_cast<size_t>(hl);
+      bo.transit_events_soft_limit = static_cast<size_t>(hl);
+      bo.transit_event_buffer_initial_capacity = static_cast<uint32_t>(hl < 2 ? 2 : hl);
+    }
+  }
   bo.error_notifier = [](std::string const& m)
   {
     std::lock_guard<std::mutex> lk{g_notify_mx};
